@@ -258,6 +258,29 @@ func VF_C10_Deep(kind, _ int) {
 		s := make([]any, 1)
 		s[0] = s
 		v = s
+	case 7: // an elided nest followed by a sibling: the elision must not change how the sibling is formatted
+		vf.Budget(30000000)
+		for d := 4; d <= 9; d++ {
+			var deep any = int64(1)
+			for i := 0; i < 12; i++ {
+				deep = col.List[any](nil).MakeFromArray([]any{deep})
+			}
+			var sib any = int64(7)
+			for i := 0; i < d; i++ {
+				sib = col.List[any](nil).MakeFromArray([]any{sib})
+			}
+			alone := mod.FormatValue(col.List[any](nil).MakeFromArray([]any{sib}))
+			both := mod.FormatValue(col.List[any](nil).MakeFromArray([]any{deep, sib}))
+			lines := splitLines(both)
+			vf.Assert("two-items-on-two-lines", len(lines) >= 4)
+			if len(lines) >= 4 {
+				vf.Assert("first-item-elided", containsStr(lines[1], "..."))
+				vf.Assert("sibling-of-elided-nest-formatted-as-when-alone", containsStr(lines[2], "...") == containsStr(alone, "..."))
+			}
+		}
+		vf.BudgetReset()
+		vf.Reach("end")
+		return
 	}
 	vf.Budget(3000000)
 	var text string
@@ -267,7 +290,34 @@ func VF_C10_Deep(kind, _ int) {
 	if !p {
 		vf.Assert("elides-with-ellipsis", len(text) > 0 && containsStr(text, "..."))
 	}
+	// the same formatter afterwards: depth back to zero, later texts unchanged
+	var okv any = int64(7)
+	for i := 0; i < 7; i++ {
+		okv = col.List[any](nil).MakeFromArray([]any{okv})
+	}
+	want := mod.FormatValue(okv)
+	f := cdc.Formatter().Make()
+	vf.Budget(6000000)
+	vf.Panics(func() { f.FormatValue(v) })
+	vf.Assert("formatter-depth-restored-after-elision", f.GetDepth() == 0)
+	vf.Assert("formatter-same-text-after-elision", f.FormatValue(okv) == want)
+	vf.BudgetReset()
 	vf.Reach("end")
+}
+
+func splitLines(s string) []string {
+	var out []string
+	start := 0
+	for i := 0; i < len(s); i++ {
+		if s[i] == '\n' {
+			out = append(out, s[start:i])
+			start = i + 1
+		}
+	}
+	if start < len(s) {
+		out = append(out, s[start:])
+	}
+	return out
 }
 
 func containsStr(s, sub string) bool {
